@@ -5,6 +5,8 @@ from . import common, netw
 def run(ctx):
     res = [("closure", netw.edge_run(ctx, "MCNetwork_quick.cfg" if ctx.quick() else "MCNetwork_thorough.cfg",
                                      "closure of the model network (%s), every edge replayed with state tracking" % ("1 user, 1 channel, 4 events" if ctx.quick() else "2 users, 2 channels, 4 events")))]
+    res.append(("nicks", netw.edge_run(ctx, "MCNetwork_nicks.cfg" if ctx.quick() else "MCNetwork_nicks_t.cfg",
+                                       "closure of the nick-centred universe (renames between names that are prefixes of each other or differ only in letter case), state tracking")))
     n, depth = (40, 60) if ctx.quick() else (600, 120)
     res.append(("sim", netw.edge_run(ctx, "MCNetwork_sim.cfg", "random sessions of the model network with 2 users and 2 channels",
                                      extra=["-simulate", "num=%d" % n, "-depth", str(depth), "-seed", str(ctx.seed)])))
